@@ -33,7 +33,7 @@ def partitioned(binary, extra, first, n, parts, tier):
     b = binary if isinstance(binary, (list, tuple)) else (binary, list(extra))
     if not isinstance(binary, (list, tuple)):
         b = (binary, list(extra))
-    ws = [orch.Worker(b, "selftest", tier, first + w, (n - w + parts - 1) // parts, parts, None, cpu=w % NPROC, chunk=100) for w in range(parts)]
+    ws = [orch.Worker(b, "selftest", tier, first + w, (n - w + parts - 1) // parts, parts, None, cpu=w % NPROC, chunk=100, idle=60) for w in range(parts)]
     with concurrent.futures.ThreadPoolExecutor(max_workers=min(parts, NPROC)) as ex:
         list(ex.map(lambda w: w.go(), ws))
     out = {}
